@@ -8,12 +8,16 @@ import itertools
 import random
 
 from gen import H, O
-from vlib import run_driver, coq_eval
+from vlib import run_driver, coq_eval, cb
 
-COQ_TARGETS = ("theories/FSModel.vo", "theories/Symlinks.vo")
+COQ_TARGETS = ("theories/FSModel.vo", "theories/Symlinks.vo", "theories/OpathM.vo", "proofs/SymlinkProofs.vo")
 UIDS = [0, 2000, 3000, 4000]
 SYSCTL = "/proc/sys/fs/protected_symlinks"
 RES = 16 | 2
+
+
+REST = {"trailing": [], "intermediate": ["f"], "trailing-of-body": [], "trailing-with-slash": [""], "trailing-with-slashes": ["", ""],
+        "before-dot": ["."]}
 
 
 def tree_for(dmode, duid, luid):
@@ -25,7 +29,8 @@ def tree_for(dmode, duid, luid):
             ["chown", H("root/d"), duid, duid], ["chmod", H("root/d"), dmode]]
 
 
-POSITIONS = {"trailing": "d/lnk", "intermediate": "d/dlnk/f", "trailing-of-body": "d/ll"}
+POSITIONS = {"trailing": "d/lnk", "intermediate": "d/dlnk/f", "trailing-of-body": "d/ll",
+             "trailing-with-slash": "d/dlnk/", "trailing-with-slashes": "d/dlnk//", "before-dot": "d/dlnk/."}
 
 
 def run(ck):
@@ -80,14 +85,16 @@ def run(ck):
                 if len(samples) < 6 and ckn == "err:13":
                     samples.append(desc)
                 # the Coq rule on the same arguments (trailing positions are where the kernel applies it)
-                trailing = pos != "intermediate"
-                term = (f"[if k_may_follow {sysctl} {caller} {dmode} {duid} {luid} {'true' if trailing else 'false'} then 1%Z else 0%Z; "
-                        f"if emu_may_follow {sysctl} {caller} {dmode} {duid} {luid} {'true' if trailing else 'false'} then 1%Z else 0%Z]")
+                # the components still to walk after the link decide whether its position is trailing: by the kernel's notion for
+                # the kernel's rule, by the library's own (ps_trailing, shaped by T0) for the library's
+                rest = "[" + "; ".join(cb(H(c)) for c in REST[pos]) + "]"
+                term = (f"[if k_may_follow {sysctl} {caller} {dmode} {duid} {luid} (k_trailing {rest}) then 1%Z else 0%Z; "
+                        f"if emu_may_follow {sysctl} {caller} {dmode} {duid} {luid} (ps_trailing {rest}) then 1%Z else 0%Z]")
                 cases.append((len(cases), term, ckn, ce, desc))
     finally:
         open(SYSCTL, "w").write(saved)
     if not ck.proof_broken:
-        evals, cerrs = coq_eval([(c[0], c[1]) for c in cases], header="From PV Require Import FSModel Symlinks.", tag="c15")
+        evals, cerrs = coq_eval([(c[0], c[1]) for c in cases], header="From PV Require Import FSModel Symlinks OpathM SymlinkProofs.", tag="c15")
         if cerrs:
             ck.violation("correspondence: Coq evaluation of the rule failed", {"log": cerrs[0][-1500:]}, False)
         for cid, term, ckn, ce, desc in cases:
@@ -104,7 +111,7 @@ def run(ck):
         "distinct_nontrivial": len(nontrivial),
         "exhaustive": True,
         "rule": "directory mode {1777, 0777, 1755, 0755} x directory owner {0, 2000, 3000} x link owner {0, 2000, 3000} x caller uid {0, 2000, 4000} "
-                "x link position {trailing, intermediate, trailing of a trailing link's body} x sysctl {1, 0} = 648 combinations, all run: emulated "
+                "x link position {trailing, intermediate, trailing of a trailing link's body, trailing + '/', trailing + '//', before '/.'} x sysctl {1, 0} = 1296 combinations, all run: emulated "
                 "backend as that uid vs the kernel's raw openat2 as that uid vs the Coq rules; distinct by (all parameters, kernel outcome)",
         "samples": samples or [{"note": "none"}],
         "kernel_refusals": stats["kernel_eacces"], "emulated_refusals": stats["emu_eacces"], "rule_evaluations_in_coq": stats["rule_checked"],
